@@ -102,15 +102,28 @@ Section Lens.
   Definition conic_read (s : surf) : T := match s_k s with Some k => k | None => ofZ 0 end.
 
   (** ** Optic.set_radius / set_conic / set_thickness / set_index / set_asphere_coeff *)
+  (** what Optic.set_radius does to the surface it names *)
+  Definition set_radius_fun (v : T) (s : surf) : surf :=
+    match s_kind s with
+    | GPlane =>
+        if isinf_ v then s                                      (* a flat surface stays a Plane *)
+        else with_geom s GStd v (Some (conic_read s)) (s_c s)   (* StandardGeometry(cs, value, getattr(geometry, 'k', 0)) *)
+    | GStd =>
+        if isinf_ v
+        then (* back to Plane(cs); a non-zero conic is kept as its k attribute *)
+             with_geom s GPlane inf_
+                       (match s_k s with
+                        | Some c => if neb_ c (ofZ 0) then Some c else None
+                        | None => None
+                        end) []
+        else with_geom s GStd v (s_k s) (s_c s)
+    | g => with_geom s g v (s_k s) (s_c s)
+    end.
+
   Definition set_radius (l : lens) (v : T) (k : Z) : option lens :=
     match nthS l k with
     | None => None
-    | Some s =>
-        Some (upd_surf l k (fun s =>
-          match s_kind s with
-          | GPlane => with_geom s GStd v (Some (conic_read s)) (s_c s)   (* StandardGeometry(cs, radius=value, conic=getattr(geometry, 'k', 0)) *)
-          | g => with_geom s g v (s_k s) (s_c s)
-          end))
+    | Some _ => Some (upd_surf l k (set_radius_fun v))
     end.
 
   Definition set_conic (l : lens) (v : T) (k : Z) : option lens :=
